@@ -8,7 +8,7 @@ use std::borrow::Cow;
 macro_rules! harness {
     ($name:ident, $body:expr) => {
         #[kani::proof]
-        #[kani::unwind(66)]
+        #[kani::unwind(5)]
         #[kani::stub(crate::parser::parse_value, no_parse_value)]
         #[kani::stub(std::ptr::drop_in_place, noop_drop)]
         fn $name() {
@@ -567,7 +567,7 @@ harness!(c05q_keypath_far, split1(3, |k| with_shape([0, 1, 3][k], QX, QY, |d| ke
 //@ desc: vacuity twin: get_by_index claimed to always return None — must be refuted
 //@ fns: get_by_index
 #[kani::proof]
-#[kani::unwind(66)]
+#[kani::unwind(5)]
 #[kani::stub(crate::parser::parse_value, no_parse_value)]
 #[kani::stub(std::ptr::drop_in_place, noop_drop)]
 fn c05_twin_must_fail() {
